@@ -37,6 +37,9 @@ pub enum Family {
     C19,
     /// C19's send-window clause: outbound window = min(configured or handshake override, peer's Receive Maximum)
     C19W,
+    /// C19's negotiated limits seen from the client: what the client announced in CONNECT is what it enforces
+    /// on inbound traffic, whatever the broker's CONNACK announces for the other direction
+    C19C,
     C20,
 }
 
@@ -65,6 +68,7 @@ impl Family {
             "C17" => Family::C17,
             "C19" => Family::C19,
             "C19W" => Family::C19W,
+            "C19C" => Family::C19C,
             "C20" => Family::C20,
             _ => return None,
         })
@@ -93,6 +97,7 @@ impl Family {
             Family::C17 => "C17",
             Family::C19 => "C19",
             Family::C19W => "C19W",
+            Family::C19C => "C19C",
             Family::C20 => "C20",
         }
     }
@@ -121,6 +126,7 @@ pub const ALL_FAMILIES: &[Family] = &[
     Family::C17,
     Family::C19,
     Family::C19W,
+    Family::C19C,
     Family::C20,
 ];
 
@@ -148,6 +154,7 @@ pub fn generate(f: Family, ch: &mut Choices) -> Plan {
         Family::C17 => gen_c17(ch),
         Family::C19 => gen_c19(ch),
         Family::C19W => gen_c19w(ch),
+        Family::C19C => gen_c19c(ch),
         Family::C20 => gen_c20(ch),
     }
 }
@@ -919,11 +926,17 @@ fn gen_c12(ch: &mut Choices) -> Plan {
         // Receive Maximum back
         plan.w_outcome = *ch.pick(&[[1u32, 0, 0], [1, 0, 0], [6, 4, 0]]);
     }
+    if role == Role::S5 && ch.chance(1, 4) {
+        // the handshake's CONNACK sets the session's Receive Maximum: above, below or in place of (0 =
+        // none) the configured one; what is advertised is what is in force
+        plan.cfg.max_receive = *ch.pick(&[0u16, 1, 2, 4]);
+        plan.cfg.hs_receive_max = Some(*ch.pick(&[1u16, 2, 3]));
+    }
     // v5: does the peer respect the advertised Receive Maximum?
     let respect = ch.chance(2, 3);
     let n = 2 + ch.choose(9);
     let burst = ch.chance(1, 2);
-    let rm = plan.cfg.max_receive;
+    let rm = plan.cfg.hs_receive_max.unwrap_or(plan.cfg.max_receive);
     for i in 0..n {
         let qos = if role.is_server() || ch.chance(1, 2) { ch.choose(3) as u8 } else { ch.choose(2) as u8 };
         let len = match ch.choose(4) {
@@ -1304,6 +1317,31 @@ fn gen_c15(ch: &mut Choices) -> Plan {
                 plan.peer.script.insert(at, step(Pkt::Disconnect(rc::Disconnect { code, props }), ver, Pre::Connected));
                 // a client that said goodbye says nothing more
                 plan.peer.script.truncate(at + 1);
+                if ch.chance(1, 2) {
+                    // ... unless it misbehaves: a packet that is a protocol error in itself follows the
+                    // DISCONNECT while the application is still handling the DISCONNECT notification, and the
+                    // application's control service likes to answer protocol errors with a DISCONNECT of its own
+                    let bad = match ch.choose(3) {
+                        0 => {
+                            let mut p = mk_publish(ver, ch, 85 + k, 0, None, 2);
+                            p.topic = String::new();
+                            p.props.retain(|(id, _)| *id != 35);
+                            p.props.push((35, PropVal::U16(3)));
+                            Pkt::Publish(p)
+                        }
+                        1 => Pkt::PubAck(Ack::ok(77)),
+                        _ => {
+                            let mut p = mk_publish(ver, ch, 86 + k, 0, None, 2);
+                            p.topic = "a/#".into();
+                            Pkt::Publish(p)
+                        }
+                    };
+                    plan.peer.script.push(step(bad, ver, Pre::Connected));
+                    plan.p_immediate = 0;
+                    plan.p_hold = *ch.pick(&[0u32, 500]);
+                    plan.w_ctl = [1, 2, 0];
+                    plan.tags.push("inject:violation-after-peer-disconnect".into());
+                }
             }
             4 => {
                 // unknown topic alias -> 0x94
@@ -1465,10 +1503,17 @@ fn gen_c17(ch: &mut Choices) -> Plan {
     // a publish that binds an alias may be refused by the application (negative acknowledgement): the
     // binding is made by the packet, not by the handler's verdict
     plan.w_outcome = *ch.pick(&[[1u32, 0, 0], [1, 0, 0], [5, 3, 0]]);
-    let max_alias = 1 + ch.choose(3) as u16;
+    let mut max_alias = 1 + ch.choose(3) as u16;
     if role.is_server() {
         plan.cfg.max_topic_alias = max_alias;
         plan.conns = 2;
+        if ch.chance(1, 4) {
+            // the handshake's CONNACK sets the session's Topic Alias Maximum, 0 (aliases switched off)
+            // included, whatever the configured value is: what is advertised is what is in force
+            plan.cfg.max_topic_alias = *ch.pick(&[32u16, 8, 1, 0]);
+            max_alias = ch.choose(4) as u16;
+            plan.cfg.hs_topic_alias_max = Some(max_alias);
+        }
     } else {
         plan.cfg.client_topic_alias_max = max_alias;
         // what the broker announces for ITS direction is independent of what the client accepts
@@ -1516,6 +1561,76 @@ fn gen_c19w(ch: &mut Choices) -> Plan {
         plan.senders.push(vec![AppOp::PubQ1 { len: 1, pid: None }]);
     }
     plan.p_cancel = 0;
+    plan
+}
+
+/// C19, client side: the limits a MQTT 5 client announces in CONNECT (Receive Maximum, Topic Alias Maximum,
+/// Maximum Packet Size) are the ones it enforces on what the broker sends, and the broker's CONNACK values
+/// (which bound the client's own sending) do not leak into them. One limit is probed per run.
+fn gen_c19c(ch: &mut Choices) -> Plan {
+    let role = Role::C5;
+    let ver = Ver::V5;
+    let mut plan = base_plan("C19C", role, ch);
+    plan.cfg.use_router = ch.chance(1, 3);
+    plan.cut = *ch.pick(&[Cut::All, Cut::Random]);
+    plan.p_immediate = *ch.pick(&[1000u32, 0]);
+    // the broker's side of the negotiation: values that differ from the client's in both directions
+    if ch.chance(3, 4) {
+        plan.peer.connack_props.push((33, PropVal::U16(*ch.pick(&[1u16, 2, 3, 10, 100]))));
+    }
+    if ch.chance(1, 2) {
+        plan.peer.connack_props.push((34, PropVal::U16(*ch.pick(&[0u16, 1, 2, 5, 20]))));
+    }
+    if ch.chance(1, 2) {
+        plan.peer.connack_props.push((39, PropVal::U32(*ch.pick(&[40u32, 90, 150, 100_000]))));
+    }
+    match ch.choose(3) {
+        0 => {
+            // Receive Maximum announced by the client
+            let r = 1 + ch.choose(3) as u16;
+            plan.cfg.client_receive_max = r;
+            plan.p_immediate = 0;
+            plan.p_hold = 1000;
+            plan.tags.push(format!("limit:receive-max:{r}"));
+            for i in 0..=r {
+                let mut p = mk_publish(ver, ch, 90 + u32::from(i), 1, Some(90 + i), 2);
+                p.dup = false;
+                p.props.retain(|(id, _)| *id != 35);
+                plan.peer.script.push(step(Pkt::Publish(p), ver, Pre::Connected));
+            }
+        }
+        1 => {
+            // Topic Alias Maximum announced by the client (0: none accepted)
+            let a = ch.choose(4) as u16;
+            plan.cfg.client_topic_alias_max = a;
+            plan.tags.push(format!("limit:alias:{a}"));
+            if a == 0 {
+                plan.tags.push("probes-within:0".into());
+            }
+            for (i, al) in [a, a + 1].iter().enumerate().skip(usize::from(a == 0)) {
+                let mut p = mk_publish(ver, ch, 80 + i as u32, 0, None, 2);
+                p.props.retain(|(id, _)| *id != 35);
+                p.props.push((35, PropVal::U16(*al)));
+                plan.peer.script.push(step(Pkt::Publish(p), ver, Pre::Connected));
+            }
+        }
+        _ => {
+            // Maximum Packet Size announced by the client (on the Remaining Length, as the codec counts)
+            let m = *ch.pick(&[60u32, 120, 200]);
+            plan.cfg.client_max_packet_size = Some(m);
+            plan.tags.push(format!("limit:max-size:{m}"));
+            for (i, target) in [m, m + 1].iter().enumerate() {
+                let mut p = mk_publish(ver, ch, 60 + i as u32, 0, None, 0);
+                p.props.clear();
+                p.topic = format!("t/{}", 60 + i);
+                let base = rc::encode(ver, &Pkt::Publish(p.clone()));
+                let rem0 = rc::fixed_header(&base).ok().flatten().map_or(0, |h| h.1);
+                p.payload = crate::world::make_payload(600 + i as u32, (*target as usize).saturating_sub(rem0));
+                plan.peer.script.push(step(Pkt::Publish(p), ver, Pre::Connected));
+            }
+        }
+    }
+    plan.ending = Ending::Settle;
     plan
 }
 
@@ -1672,6 +1787,14 @@ fn gen_c20(ch: &mut Choices) -> Plan {
             plan.cfg.client_keepalive_s = ka;
             plan.peer.auto_ack = ch.chance(3, 4);
             plan.tags.push("mode:client-keepalive".into());
+            if role == Role::C5 && ch.chance(1, 3) {
+                // the broker imposes its own keep-alive (CONNACK Server Keep Alive): that is the period the
+                // client has to keep, whatever it asked for (more, less, or none at all) and however the
+                // application started it (plain, or through the topic router)
+                plan.peer.connack_props.push((19, PropVal::U16(1 + ch.choose(3) as u16)));
+                plan.cfg.client_keepalive_s = *ch.pick(&[ka, 30, 0, 5]);
+                plan.cfg.use_router = ch.chance(1, 2);
+            }
             if ch.chance(1, 2) {
                 // the application keeps the send window (of one) exhausted while the keep-alive task ticks;
                 // a silent peer leaves it exhausted for the whole run
@@ -1936,11 +2059,17 @@ fn gen_c19(ch: &mut Choices) -> Plan {
             _ => {
                 // receive maximum: configured or overridden
                 let r = 1 + ch.choose(2) as u16;
-                if ch.chance(1, 2) {
-                    plan.cfg.max_receive = r;
-                } else {
-                    plan.cfg.max_receive = 8;
-                    plan.cfg.hs_receive_max = Some(r);
+                match ch.choose(4) {
+                    0 | 1 => plan.cfg.max_receive = r,
+                    2 => {
+                        plan.cfg.max_receive = 8;
+                        plan.cfg.hs_receive_max = Some(r);
+                    }
+                    _ => {
+                        // the override replaces no limit at all (0), or a smaller one
+                        plan.cfg.max_receive = if ch.chance(1, 2) { 0 } else { r - 1 };
+                        plan.cfg.hs_receive_max = Some(r);
+                    }
                 }
                 plan.p_immediate = 0;
                 plan.p_hold = 1000;
